@@ -54,7 +54,7 @@ def payloads(rng, tier):
     for e in range({"quick": 16, "thorough": 9, "search": 30}[tier], {"quick": 58, "thorough": 120, "search": 40}[tier]):
         for m in ([5, 15, 25, 125, 1, 3] if tier != "search" else [15, 5]):
             k, kind, rows, v0 = cc.graph_case(rng, min(kmax, 2))
-            bits = [int(c) for c in bin(m * 10 ** e)[2:]] + [rng.randint(0, 1) for _ in range(rng.randint(1, 3))]
+            bits = [int(c) for c in bin(m * 10 ** e + rng.choice([0, 0, -1, -7, -30, 1]))[2:]] + [rng.randint(0, 1) for _ in range(rng.randint(1, 3))]
             yield "roundtrip", {"k": k, "rows": rows, "v0": v0, "bits": bits, "fast": False,
                                 "table": gen.random_table(rng, len(rows)) if rng.random() < 0.3 else None,
                                 "vt": rng.choice([0, 0, 2]), "kind": kind, "reuse": False}
